@@ -143,6 +143,24 @@ def history(rng, tier):
         if rng.random() < 0.025:
             readonly_interlude(w, rng)
         if rng.random() < 0.06:
+            # an entity deleted and another one of the same kind and NAME created in its place, the parent asked about the name before
+            # and after: what the parent shows now (and what the new entity is given) is what the reopened file shows
+            v = w.pick(['A', 'T', 'G', 'D', 'O', 'S'])
+            if v is not None:
+                par = next((e for e in w.ents if e.slot == v.parent and e.alive), None)
+                if par is not None or v.parent == '$F':
+                    for _ in range(2): w.emit('has %s %s name %s' % (v.kind, v.parent, S(v.name)))
+                    w.emit('get $pre %s %s name %s' % (v.kind, v.parent, S(v.name)))
+                    name = v.name
+                    w.delete(v)
+                    nw = w.mk(v.kind, par, name=name)
+                    if nw is not None and nw.alive:
+                        w.emit('set %s definition %s' % (nw.slot, S('the second of that name')))
+                        w.emit('get $post %s %s name %s' % (v.kind, v.parent, S(name)))
+                        w.emit('xcheck %s %s' % (v.kind, v.parent))
+                        if v.kind == 'A':
+                            for t in w.alive(['T', 'M'], block=nw.block)[:1]: w.emit('link ref %s name %s' % (t.slot, S(name)))
+        if rng.random() < 0.06:
             w.emit('fflush')
         if rng.random() < 0.07:
             w.emit('dump')
